@@ -408,6 +408,10 @@ class List(list, base.Symbolic, pg_typing.CustomTyping):
     if isinstance(value, Insertion):
       should_insert = True
       value = value.value
+      # An inserted value always takes a new position: a value that is already
+      # in a tree (even this list at this very index) must be copied.
+      if isinstance(value, base.Symbolic) and value.sym_parent is not None:
+        value = value.clone()
 
     old_value = pg_typing.MISSING_VALUE
     # Replace an existing value.
